@@ -68,7 +68,7 @@ def run_semantic_check(run, prop, n_quick, n_thorough, features=None, depth_choi
                 "src-stuck": "the source-level IR is not executable in the source model (unbound variable / ill-typed IR)",
             }[st]
             w = {"kind": kind, "status": st, "program": s}
-            if st in ("differ", "go-stuck", "src-stuck"):
+            if st in ("differ", "go-stuck", "src-stuck") and len(wits) < 3:  # only the first few are reported
                 try:
                     w.update(semrun.details(tag + "_w", p, src_stage=r.get("reference_stage", stage)))
                 except Exception as e:  # noqa
@@ -92,7 +92,8 @@ def run_semantic_check(run, prop, n_quick, n_thorough, features=None, depth_choi
             else:
                 w = {"kind": "corpus program: source semantics, Go semantics and the output recorded from real Go do not all agree", "corpus": name, "status": r["status"], "matches_recorded_output": r.get("matches_recorded_output")}
                 try:
-                    w.update(semrun.details(tag + "_cw", p, fuel=200000, src_stage=r.get("reference_stage", stage)))
+                    if len(wits) < 3:
+                        w.update(semrun.details(tag + "_cw", p, fuel=200000, src_stage=r.get("reference_stage", stage)))
                 except Exception as e:  # noqa
                     w["details_error"] = repr(e)[:300]
                 wits.append(w)
